@@ -75,6 +75,8 @@ def _names_of(pred, TRr, notes):
 
 
 def run(db, chk) -> None:
+    from ..specs.discipline import check_shared_trace_untouched
+    check_shared_trace_untouched(db, chk, "C15.R-shared-trace")
     from ..specs.discipline import check_facade_stateless
     check_facade_stateless(db, chk, "C15.R-facade-stateless", ['get_cuda_kernel_launch_stats'])
     from ..specs.discipline import check_stateless
